@@ -483,6 +483,223 @@ def search_triggers(ctx):
         break
 
 
+# ---- formulas that require SEVERAL rows of a column at once (sum($RefList.col), lookupRecords(...).col) -------------
+# One access brings several rows up to date together (Table._get_col_obj_subset -> _use_node(node, rel, row_ids) ->
+# _recompute_step(require_rows=[...])); row-dependent formulas put cycles / chains through SOME rows of a column.
+# column spec: ('x',) $X | ('sumL', col) sum($L.col) | ('sumG', col) sum(T.lookupRecords(G=$G).col) | ('ref', col) $R.col
+#   | ('col', c) $c | ('add', a, b) | ('ifid', [rows], a, b)   (a if $id in (rows) else b)
+
+def mr_py(a):
+  k = a[0]
+  if k == 'x':
+    return '$X'
+  if k == 'col':
+    return '$%s' % a[1]
+  if k == 'sumL':
+    return 'sum($L.%s)' % a[1]
+  if k == 'sumG':
+    return 'sum(T.lookupRecords(G=$G).%s)' % a[1]
+  if k == 'ref':
+    return '$R.%s' % a[1]
+  if k == 'add':
+    return '(%s + %s)' % (mr_py(a[1]), mr_py(a[2]))
+  if k == 'ifid':
+    return '(%s if $id in (%s,) else %s)' % (mr_py(a[2]), ', '.join(str(r) for r in a[1]), mr_py(a[3]))
+  raise ValueError(a)
+
+
+def mr_eval(prog, data):
+  """Cell-level reference: {col: [value per row]}; cells on / downstream of a (dynamic) cycle hold CRE."""
+  n = len(data['X'])
+  memo = {}
+  def cell(c, r, stack):
+    if (c, r) in memo:
+      v = memo[(c, r)]
+    elif (c, r) in stack:
+      raise _Cycle()
+    else:
+      try:
+        v = ev(prog[c], r, stack + [(c, r)])
+      except _Cycle:
+        v = CRE
+      memo[(c, r)] = v
+    if v == CRE:
+      raise _Cycle()
+    return v
+  def ev(a, r, stack):
+    k = a[0]
+    if k == 'x':
+      return data['X'][r - 1]
+    if k == 'col':
+      return cell(a[1], r, stack)
+    if k == 'sumL':
+      return sum([cell(a[1], q, stack) for q in data['L'][r - 1]])
+    if k == 'sumG':
+      return sum([cell(a[1], q, stack) for q in range(1, n + 1) if data['G'][q - 1] == data['G'][r - 1]])
+    if k == 'ref':
+      return cell(a[1], data['R'][r - 1], stack)
+    if k == 'add':
+      x = ev(a[1], r, stack)
+      return x + ev(a[2], r, stack)
+    if k == 'ifid':
+      return ev(a[2], r, stack) if r in a[1] else ev(a[3], r, stack)
+    raise ValueError(a)
+  out = {}
+  for c in prog:
+    out[c] = []
+    for r in range(1, n + 1):
+      try:
+        out[c].append(cell(c, r, []))
+      except _Cycle:
+        out[c].append(CRE)
+  return out
+
+
+def gen_multirow(rng):
+  n = rng.choice([3, 3, 4])
+  rows = list(range(1, n + 1))
+  data = {'X': [rng.choice([1, 2, 3, 10, 20]) for _ in rows],
+          'L': [rng.sample(rows, rng.randint(1, n)) for _ in rows],
+          'R': [rng.choice(rows) for _ in rows], 'G': [rng.choice([1, 1, 2]) for _ in rows]}
+  some = lambda: sorted(rng.sample(rows, rng.choice([1, 1, 2])))
+  agg = rng.choice(['sumL', 'sumL', 'sumG'])
+  variant = rng.choice(['cycle', 'cycle', 'chain', 'mixed'])
+  if variant == 'cycle':          # S aggregates V; V of some rows reads S of the same (or a referenced) row
+    back = rng.choice([('col', 'S'), ('col', 'S'), ('ref', 'S'), ('add', ('col', 'S'), ('x',))])
+    prog = {'S': (agg, 'V'), 'V': ('ifid', some(), back, ('x',))}
+  elif variant == 'chain':        # S aggregates V; V of some rows reads S of ANOTHER row through R
+    prog = {'S': (agg, 'V'), 'V': ('ifid', some(), ('ref', 'S'), ('x',))}
+  else:
+    prog = {'S': ('add', (agg, 'V'), ('ifid', some(), ('ref', 'V'), ('x',))), 'V': ('ifid', some(), ('sumL', 'S'), ('x',)),
+            'W': ('add', ('sumG', 'S'), ('ref', 'V'))}
+  edits = []
+  for _ in range(rng.choice([0, 1, 2, 3])):
+    r = rng.choice(rows)
+    e = rng.random()
+    if e < 0.35:
+      edits.append(['upd', r, 'L', rng.sample(rows, rng.randint(1, n))])
+    elif e < 0.6:
+      edits.append(['upd', r, 'R', rng.choice(rows)])
+    elif e < 0.8:
+      edits.append(['upd', r, 'X', rng.choice([4, 5, 7])])
+    else:
+      edits.append(['mod', 'V', ['ifid', some(), ['ref', 'S'], ['x']]])
+  return {'stream': 'multirow', 'prog': {c: K2.list_of(a) for c, a in prog.items()}, 'data': data, 'edits': edits,
+          'pseed': rng.choice([None, rng.randrange(1 << 30)])}
+
+
+def mr_script(w):
+  prog = {c: K2.tuple_of(a) for c, a in w['prog'].items()}
+  d = w['data']
+  n = len(d['X'])
+  cols = [{'id': 'X', 'type': 'Int', 'isFormula': False}, {'id': 'L', 'type': 'RefList:T', 'isFormula': False},
+          {'id': 'R', 'type': 'Ref:T', 'isFormula': False}, {'id': 'G', 'type': 'Int', 'isFormula': False}]
+  cols += [{'id': c, 'type': 'Any', 'isFormula': True, 'formula': mr_py(a)} for c, a in prog.items()]
+  script = [[['AddTable', 'T', cols]],
+            [['BulkAddRecord', 'T', list(range(1, n + 1)),
+              {'X': list(d['X']), 'L': [['L'] + list(x) for x in d['L']], 'R': list(d['R']), 'G': list(d['G'])}]]]
+  states = [None, (dict(prog), copy.deepcopy(d))]
+  for st in w['edits']:
+    prog, d = dict(prog), copy.deepcopy(d)
+    if st[0] == 'upd':
+      d[st[2]][st[1] - 1] = st[3]
+      script.append([['UpdateRecord', 'T', st[1], {st[2]: (['L'] + list(st[3])) if st[2] == 'L' else st[3]}]])
+    else:
+      prog[st[1]] = K2.tuple_of(st[2])
+      script.append([['ModifyColumn', 'T', st[1], {'formula': mr_py(prog[st[1]])}]])
+    states.append((prog, d))
+  return script, states
+
+
+def run_multirow(w):
+  """After the build and after every edit: every formula cell against the cell-level reference.  None or (kind, desc)."""
+  script, states = mr_script(w)
+  def go():
+    e, _ = G.new_doc()
+    if w.get('pseed') is not None:
+      ST.inject_order(e, K2.node_priority(w['pseed']))
+    for i, b in enumerate(script):
+      G.apply(e, b)
+      if states[i] is None:
+        continue
+      prog, d = states[i]
+      exp = mr_eval(prog, d)
+      got = G.snapshot(e, tables=['T'])['T']['cols']
+      for c in exp:
+        for r, (a, x) in enumerate(zip(exp[c], got[c])):
+          if a != x:
+            kind = 'cycle_not_reported' if a == CRE else ('stale_cycle_error' if x == CRE else 'wrong_value')
+            return kind, 'after bundle %d (%r): %s[row %d] holds %r, expected %r; formulas %r, data %r' % (
+              i, b, c, r + 1, x, a, {k: mr_py(v) for k, v in prog.items()}, d)
+    return None
+  try:
+    return ST.limited2(go)
+  except Timeout:
+    return 'internal', 'recalculation did not terminate within the time limit'
+  except Exception as x:
+    return 'internal', 'recalculation raised %r' % (x,)
+
+
+def search_multirow(ctx):
+  for _ in range(ctx.n(40, 2500)):
+    w = gen_multirow(ctx.rng)
+    exp = mr_eval({c: K2.tuple_of(a) for c, a in w['prog'].items()}, w['data'])
+    cyc = any(v == CRE for vs in exp.values() for v in vs)
+    ctx.count(('multirow', repr(w)), nontrivial=True, kind='multirow:' + ('cyclic' if cyc else 'acyclic'))
+    bad = run_multirow(w)
+    if bad:
+      ctx.violation(bad[0], bad[1], w)
+      if sum(1 for v in ctx.violations if v['kind'] == 'internal') >= 3 or len(ctx.violations) > 12:
+        return
+
+
+# ---- robustness stream: the attribute of an EMPTY record set requires the whole column (known finding) -------------
+
+EMPTYSET_DOCS = [
+  [['B', 'sum(T.lookupRecords(D=99).C)'], ['C', '$B + 1']],
+  [['B', 'sum(T.lookupRecords(D=99).B)']],
+  [['B', 'len(T.lookupRecords(D=99).C) + 5'], ['C', '$B * 2']],
+]
+
+
+def run_emptyset(w):
+  """The lookup matches no row, so B reads no cell of C: B = its normal value (0 or 5), C from it; None or (kind, desc)."""
+  def go():
+    e, _ = G.new_doc()
+    cols = [{'id': 'D', 'type': 'Int', 'isFormula': False}]
+    cols += [{'id': c, 'type': 'Any', 'isFormula': True, 'formula': f} for c, f in w['cols']]
+    G.apply(e, [['AddTable', 'T', cols]])
+    G.apply(e, [['BulkAddRecord', 'T', [None] * len(w['d']), {'D': list(w['d'])}]])
+    return G.snapshot(e, tables=['T'])['T']['cols']
+  try:
+    got = ST.limited2(go)
+  except Timeout:
+    return 'internal', 'recalculation did not terminate within the time limit'
+  except Exception as x:
+    return 'internal', 'recalculation raised %r' % (x,)
+  bad = [(c, got[c]) for c, _f in w['cols'] if CRE in got[c]]
+  if bad:
+    kind = 'empty_recordset_requires_column'
+    return kind, ('no cell depends on itself (the lookup matches no row, so no cell of the attribute column is read), '
+                  'but %r hold CircularRefError; formulas %r' % (bad, w['cols']))
+  return None
+
+
+def search_emptyset(ctx):
+  for cols in EMPTYSET_DOCS:
+    w = {'stream': 'emptyset', 'cols': cols, 'd': [ctx.rng.choice([1, 2, 3]) for _ in range(ctx.rng.choice([1, 2, 3]))]}
+    ctx.bump('emptyset-robustness')
+    bad = run_emptyset(w)
+    if bad:
+      ctx.violation(bad[0], bad[1], w)
+
+
+def _emptyset_matcher(v, entry):
+  w = v.get('replay', {})
+  return (v.get('kind') == 'empty_recordset_requires_column' and w.get('stream') == 'emptyset' and
+          any(re.search(r'lookupRecords\(D=99\)\.\w+', f) for _c, f in w.get('cols', [])))
+
+
 # ---- random grammar programs against a recursive reference evaluator ------------------------------------------
 
 class _Cycle(Exception):
@@ -664,9 +881,11 @@ def search(ctx):
   search_sequences(ctx)
   search_triggers(ctx)
   ctx.log('search: edit sequences done')
+  search_multirow(ctx)
   search_progs(ctx)
   ctx.log('search: programs done')
   search_lookups(ctx)
+  search_emptyset(ctx)
 
 
 def replay(ctx, w):
@@ -680,6 +899,10 @@ def replay(ctx, w):
     bad = run_sequence(w)
   elif s == 'trigger':
     bad = run_trigger(w)
+  elif s == 'multirow':
+    bad = run_multirow(w)
+  elif s == 'emptyset':
+    bad = run_emptyset(w)
   elif s == 'prog':
     bad = run_prog(w)
   elif s == 'lookup':
@@ -695,14 +918,15 @@ def _lookup_matcher(v, entry):
           and lookup_cycle(w.get('formulas', {})))
 
 
-MATCHERS = {'lookup_key_depends_on_own_column': _lookup_matcher}
+MATCHERS = {'lookup_key_depends_on_own_column': _lookup_matcher,
+            'empty_recordset_requires_column': _emptyset_matcher}
 
 
 # ---- tie ------------------------------------------------------------------------------------------------
 
 def correspond(ctx):
   """Recorded update loops of cyclic documents without try/except, replayed by the model (as C06)."""
-  cases = K2.traced_cases(ctx, ctx.n(35, 600), p_try=0.0, p_tryo=0.15, p_lookup=0.3)
+  cases = K2.traced_cases(ctx, ctx.n(35, 600), p_try=0.0, p_tryo=0.15, p_lookup=0.3, p_multi=0.35)
   for term, info, st, _strict, _edges in cases:
     nontrivial = bool(st.get('cycle'))
     ctx.count(term, nontrivial=nontrivial, sample=info if nontrivial else None,
